@@ -92,3 +92,194 @@ Qed.
 Lemma snapshot_holds_ext n w w' :
   (forall x, w_raw w x = w_raw w' x) -> snapshot_holds n w = snapshot_holds n w'.
 Proof. intros H. unfold snapshot_holds. apply map_ext. exact H. Qed.
+
+(* ---------------------------------------------------------------- history steps *)
+Lemma hstep_some e nl np h t o p out w' :
+  h_stop h = false -> api_prog e (h_loc h t) o = Some p ->
+  run nopw t p (clear_trace (h_w h)) = (out, w') ->
+  hstep e nl np h (t, o) =
+  (mkh w' (upd (h_loc h) t (fst (api_fin e (h_loc h t) o out))) (stops (snd (api_fin e (h_loc h t) o out))),
+   [mkco t (snd (api_fin e (h_loc h t) o out)) (rev (w_trace w')) (snapshot_holds nl w') (snapshot_psn np w')
+          (negb (w_keyf w' t))]).
+Proof.
+  intros Hs Hp Hr. unfold hstep. rewrite Hs, Hp, Hr.
+  destruct (api_fin e (h_loc h t) o out). reflexivity.
+Qed.
+
+Lemma hstep_none e nl np h t o :
+  h_stop h = false -> api_prog e (h_loc h t) o = None ->
+  hstep e nl np h (t, o) =
+  (h, [mkco t RSkipped [] (snapshot_holds nl (h_w h)) (snapshot_psn np (h_w h)) (negb (w_keyf (h_w h) t))]).
+Proof. intros Hs Hp. unfold hstep. now rewrite Hs, Hp. Qed.
+
+Lemma hrun_cons e nl np h x r h1 o1 :
+  hstep e nl np h x = (h1, o1) ->
+  snd (hrun e nl np h (x :: r)) = o1 ++ snd (hrun e nl np h1 r).
+Proof. intros H. cbn [hrun]. rewrite H. destruct (hrun e nl np h1 r). reflexivity. Qed.
+
+Lemma quiet_clear w : quiet w -> quiet (clear_trace w).
+Proof. intros [A [B C]]. repeat split; assumption. Qed.
+
+(* the part of a hstate the sequential proofs need *)
+Definition hq (h : hstate) : Prop :=
+  h_stop h = false /\ quiet (h_w h) /\ (forall p, w_psn (h_w h) p = false).
+
+Lemma hq_eff h w' f loc :
+  hq h -> eff (clear_trace (h_w h)) w' f -> hq (mkh w' loc false).
+Proof.
+  intros [_ [Q P]] E. split; [reflexivity|]. split.
+  - eapply eff_quiet; [exact E|]. now apply quiet_clear.
+  - intros p. cbn [h_w]. rewrite (eff_psn _ _ _ E). apply P.
+Qed.
+
+(* ThreadKey::get *)
+Lemma step_keyget e nl np h t :
+  h_stop h = false ->
+  hstep e nl np h (t, AKeyGet) =
+  (mkh (set_keyf (clear_trace (h_w h)) t true)
+       (upd (h_loc h) t (mkt (haskey (h_loc h t) || negb (w_keyf (h_w h) t)) (guard (h_loc h t)))) false,
+   [mkco t (RB (negb (w_keyf (h_w h) t))) [] (snapshot_holds nl (h_w h)) (snapshot_psn np (h_w h)) false]).
+Proof.
+  intros Hs. erewrite hstep_some; [|exact Hs|reflexivity|reflexivity].
+  cbn. rewrite upd_same. destruct (w_keyf (h_w h) t); reflexivity.
+Qed.
+
+Lemma hq_keyget h t loc : hq h -> hq (mkh (set_keyf (clear_trace (h_w h)) t true) loc false).
+Proof. intros [_ [[A [B C]] P]]. repeat split; assumption. Qed.
+
+Lemma blk_locks_app a b : blk_locks (a ++ b) = blk_locks a ++ blk_locks b.
+Proof. unfold blk_locks. apply flat_map_app. Qed.
+
+Lemma blk_locks_acq t m ls : blk_locks (map (acq_ev t m) ls) = locks_of ls.
+Proof.
+  induction ls as [|[k l] r IH]; simpl; [reflexivity|]. unfold blk_locks in *. simpl.
+  rewrite IH. destruct k, m; reflexivity.
+Qed.
+
+Definition not_raw (e : ev) : Prop := match e with ERaw _ _ _ _ => False | _ => True end.
+
+Lemma blk_locks_not_raw evs : Forall not_raw evs -> blk_locks evs = [].
+Proof.
+  induction 1 as [|e r He Hr IH]; [reflexivity|]. unfold blk_locks in *. simpl. rewrite IH.
+  destruct e; try reflexivity. destruct He.
+Qed.
+
+Lemma run_see_all_tr t ps w :
+  exists w', run nopw t (see_all ps) w = (ODone VUnit, w') /\ eff w w' (w_raw w) /\
+             exists evs, w_trace w' = evs ++ w_trace w /\ Forall not_raw evs.
+Proof.
+  revert w. induction ps as [|p r IH]; intros w.
+  - exists w. split; [reflexivity|]. split; [apply eff_refl|]. exists []. split; [reflexivity|constructor].
+  - destruct (IH (emit w (ESee t (w_psn w p)))) as [w' [R [E [evs [T F]]]]].
+    exists w'. split; [|split].
+    + unfold see_all in *. cbn [map seqs]. unfold pthen at 1. cbn [run op_ do_op]. exact R.
+    + eapply eff_trans; [|exact E]. constructor; simpl; auto. exists [ESee t (w_psn w p)]. split; auto.
+      constructor; [exact I|constructor].
+    + exists (evs ++ [ESee t (w_psn w p)]). split.
+      * rewrite T. simpl. now rewrite <- app_assoc.
+      * apply Forall_app. split; [exact F|]. constructor; [exact I|constructor].
+Qed.
+
+Lemma can_all_free m ls f : (forall x, In x (locks_of ls) -> f x = raw_free) -> can_all m ls f = true.
+Proof.
+  intros H. unfold can_all. apply forallb_forall. intros [k l] Hin. cbn [fst snd].
+  rewrite H; [|unfold locks_of; now apply (in_map snd) in Hin]. unfold can1. destruct (shared k m); reflexivity.
+Qed.
+
+Section Steps.
+  Variables (e : env) (nl np : nat) (t : tid) (m : mode).
+
+  (* lock / read / write through an ordered algorithm (single lock, boxed, ref, owned) when every leaf is
+     available: Ok, all leaves held, blocking acquisitions exactly in the order of the cached list *)
+  Lemma step_acquire_guard_ordered h c s :
+    hq h -> haskey (h_loc h t) = true -> coll e c = Some s -> acquirable s = true -> NoDup (leaves s) ->
+    (match alg_of (e_am e) s with AlgRetry _ => False | _ => True end) ->
+    can_all m (kleaves s) (w_raw (h_w h)) = true ->
+    exists w',
+      hstep e nl np h (t, AAcquire c m FGuard) =
+      (mkh w' (upd (h_loc h) t (mkt false (Some (mkg m (gitems s))))) false,
+       [mkco t ROk (rev (w_trace w')) (snapshot_holds nl w') (snapshot_psn np w') (negb (w_keyf w' t))]) /\
+      eff (clear_trace (h_w h)) w' (acq_all t m (kleaves s) (w_raw (h_w h))) /\
+      blk_locks (rev (w_trace w')) = locks_of (rsleaves (alg_refs (alg_of (e_am e) s))).
+  Proof.
+    intros [Hs [Q P]] Hk Hc Ha ND Hr Can.
+    pose proof (alg_refs_leaves (e_am e) s Ha) as Hp.
+    assert (NDk : NoDup (locks_of (kleaves s))) by (rewrite <- leaves_kleaves; exact ND).
+    assert (ND' : NoDup (locks_of (rsleaves (alg_refs (alg_of (e_am e) s))))).
+    { eapply Permutation_NoDup; [apply locks_of_perm; symmetry; exact Hp|exact NDk]. }
+    set (w := clear_trace (h_w h)).
+    assert (Qw : quiet w) by (now apply quiet_clear).
+    assert (Can' : can_all m (rsleaves (alg_refs (alg_of (e_am e) s))) (w_raw w) = true).
+    { rewrite (can_all_perm m _ _ _ Hp). exact Can. }
+    (* the acquisition itself *)
+    assert (X : exists w1, run nopw t (raw_lock (e_fuel e) m (alg_of (e_am e) s)) w = (ODone VUnit, w1) /\
+                eff w w1 (acq_all t m (rsleaves (alg_refs (alg_of (e_am e) s))) (w_raw w)) /\
+                w_trace w1 = rev (map (acq_ev t m) (rsleaves (alg_refs (alg_of (e_am e) s)))) ++ w_trace w).
+    { destruct (alg_of (e_am e) s) as [k l|rs|rs|] eqn:Ea; cbn [raw_lock alg_refs] in *.
+      - pose proof (run_rr_lock t m (RLeaf k l) w Qw) as X. rewrite rsleaves_one in *.
+        specialize (X ND'). rewrite Can' in X. exact X.
+      - pose proof (run_ordered_lock t m rs w Qw ND') as X. rewrite Can' in X. exact X.
+      - destruct Hr.
+      - exists w. split; [reflexivity|]. split; [apply eff_refl|reflexivity]. }
+    destruct X as [w1 [R1 [E1 T1]]].
+    destruct (run_see_all_tr t (gpoisons (gitems s)) w1) as [w2 [R2 [E2 [evs [T2 F2]]]]].
+    assert (P2 : forall p, w_psn w2 p = false).
+    { intros p. rewrite (eff_psn _ _ _ E2), (eff_psn _ _ _ E1). apply P. }
+    assert (Rcall : run nopw t (Catch (raw_lock (e_fuel e) m (alg_of (e_am e) s)) keydrop ;;
+                                see_all (gpoisons (gitems s)) ;; poison_result s) w = (ODone (VNat 0), w2)).
+    { rewrite (run_then_done _ _ _ _ _ VUnit w1) by (apply (run_catch_done _ _ _ _ _ _ _ R1)).
+      rewrite (run_then_done _ _ _ _ _ _ _ R2). now apply run_poison_result. }
+    assert (Hprog : api_prog e (h_loc h t) (AAcquire c m FGuard) =
+              Some (Catch (raw_lock (e_fuel e) m (alg_of (e_am e) s)) keydrop ;;
+                    see_all (gpoisons (gitems s)) ;; poison_result s)).
+    { cbn [api_prog]. rewrite Hc, Hk. reflexivity. }
+    exists w2. split; [|split].
+    - rewrite (hstep_some e nl np h t _ _ _ _ Hs Hprog Rcall). cbn [api_fin]. rewrite Hc. reflexivity.
+    - eapply eff_ext; [eapply eff_trans; [exact E1|exact E2]|].
+      intros x. rewrite (eff_raw _ _ _ E1). apply acq_all_perm; assumption.
+    - rewrite T2, T1. unfold w. cbn [clear_trace w_trace]. rewrite app_nil_r.
+      rewrite rev_app_distr, rev_involutive, blk_locks_app, blk_locks_acq.
+      rewrite blk_locks_not_raw; [apply app_nil_r|].
+      apply Forall_rev. exact F2.
+  Qed.
+
+  (* Mutex::unlock(guard) / LockCollection::unlock(guard) / ... *)
+  Lemma step_guard_unlock h items :
+    hq h -> guard (h_loc h t) = Some (mkg m items) ->
+    NoDup (locks_of (gleaves items)) -> held_all t m (gleaves items) (w_raw (h_w h)) = true ->
+    exists w',
+      hstep e nl np h (t, AGuardUnlock) =
+      (mkh w' (upd (h_loc h) t (mkt true None)) false,
+       [mkco t ROk (rev (w_trace w')) (snapshot_holds nl w') (snapshot_psn np w') (negb (w_keyf w' t))]) /\
+      eff (clear_trace (h_w h)) w' (rel_all t m (gleaves items) (w_raw (h_w h))).
+  Proof.
+    intros [Hs [Q P]] Hg ND H.
+    destruct (run_drop_items t m items (clear_trace (h_w h)) (quiet_clear _ Q) ND H) as [w' [R E]].
+    assert (Hprog : api_prog e (h_loc h t) AGuardUnlock = Some (Catch (drop_items m false items) keydrop)).
+    { cbn [api_prog]. rewrite Hg. reflexivity. }
+    exists w'. split; [|exact E].
+    rewrite (hstep_some e nl np h t _ _ _ _ Hs Hprog (run_catch_done _ _ _ _ _ _ _ R)). reflexivity.
+  Qed.
+
+  (* drop(guard) *)
+  Lemma step_guard_drop h items :
+    hq h -> guard (h_loc h t) = Some (mkg m items) ->
+    NoDup (locks_of (gleaves items)) -> held_all t m (gleaves items) (w_raw (h_w h)) = true ->
+    exists w',
+      hstep e nl np h (t, AGuardDrop) =
+      (mkh (set_keyf w' t false) (upd (h_loc h) t (mkt false None)) false,
+       [mkco t ROk (rev (w_trace w')) (snapshot_holds nl w') (snapshot_psn np w') true]) /\
+      eff (clear_trace (h_w h)) w' (rel_all t m (gleaves items) (w_raw (h_w h))).
+  Proof.
+    intros [Hs [Q P]] Hg ND H.
+    destruct (run_drop_items t m items (clear_trace (h_w h)) (quiet_clear _ Q) ND H) as [w' [R E]].
+    assert (Hprog : api_prog e (h_loc h t) AGuardDrop = Some (Catch (drop_items m false items) keydrop ;; keydrop)).
+    { cbn [api_prog]. rewrite Hg. reflexivity. }
+    assert (Rc : run nopw t (Catch (drop_items m false items) keydrop ;; keydrop) (clear_trace (h_w h)) =
+                 (ODone VUnit, set_keyf w' t false)).
+    { rewrite (run_then_done _ _ _ _ _ VUnit w'); [reflexivity|]. apply (run_catch_done _ _ _ _ _ _ _ R). }
+    exists w'. split; [|exact E].
+    rewrite (hstep_some e nl np h t _ _ _ _ Hs Hprog Rc). cbn [api_fin fst snd stops].
+    cbn [set_keyf w_trace w_keyf]. rewrite upd_same. reflexivity.
+  Qed.
+End Steps.
